@@ -1,4 +1,5 @@
 import WfModel.Model.Parse
+import WfModel.Lemmas.Unary
 
 /-! Helper definitions and lemmas for C01, parts 4-5: precedence climbing equals the layered
 grammar; `not` binds tightest (no property statements here). -/
@@ -627,20 +628,49 @@ theorem unfolds_length {simple : Input → LexRes (Typed LExpr)}
 
 /-! ### 5. `not` binds tightest -/
 
-theorem simpleL_not (env : PEnv) (lw : Level) (x : Input) :
+/-- `lex_simple_expr` once `lex_unary_op` has returned the operator -/
+theorem simpleL_unaryOp (env : PEnv) (lw : Level) {input rest : Input} {u : Unit}
+    (h0 : expect input "(" = none) (h : lexUnary env input = some (u, rest)) :
+    simpleL env (some lw) input =
+      match lw.simple (skipSpace rest) with
+      | .error e => .error e
+      | .ok (e, r) => .ok ({ node := .unaryNot e.node, ty := e.ty }, r) := by
+  simp only [simpleL, h0, h]
+  rfl
+
+/-- `lex_simple_expr` when `lex_unary_op` declines (no operator, or the start of a registered
+name): quantifier call, else comparison -/
+theorem simpleL_noUnary (env : PEnv) (lower : Option Level) {input : Input}
+    (h0 : expect input "(" = none) (h : lexUnary env input = none)
+    (hq : lexQuantCall input = none) :
+    simpleL env lower input = comparisonL env lower input := by
+  simp only [simpleL, h0, h, hq]
+
+/-- the word `not` is the operator when it is not glued to name characters, or when the
+maximal dotted name starting at the `n` is not registered (`lex_unary_op`) -/
+theorem simpleL_not (env : PEnv) (lw : Level) (x : Input)
+    (hop : gluedTo x = false ∨ isRegistered env.scheme ('n' :: 'o' :: 't' :: x) = false) :
     simpleL env (some lw) ('n' :: 'o' :: 't' :: x) =
       match lw.simple (skipSpace x) with
       | .error e => .error e
-      | .ok (e, r) => .ok ({ node := .unaryNot e.node, ty := e.ty }, r) := by
-  simp [simpleL, expect, stripPrefix, lexEnum, unaryOps]
-  rfl
+      | .ok (e, r) => .ok ({ node := .unaryNot e.node, ty := e.ty }, r) :=
+  simpleL_unaryOp env lw (by simp [expect, stripPrefix])
+    ((lexUnary_eq_some_iff env _ x ()).mpr (.inr ⟨rfl, hop⟩))
 
 theorem simpleL_bang (env : PEnv) (lw : Level) (x : Input) :
     simpleL env (some lw) ('!' :: x) =
       match lw.simple (skipSpace x) with
       | .error e => .error e
-      | .ok (e, r) => .ok ({ node := .unaryNot e.node, ty := e.ty }, r) := by
-  simp [simpleL, expect, stripPrefix, lexEnum, unaryOps]
-  rfl
+      | .ok (e, r) => .ok ({ node := .unaryNot e.node, ty := e.ty }, r) :=
+  simpleL_unaryOp env lw (by simp [expect, stripPrefix]) (lexUnary_bang env x)
+
+/-- the word `not` glued to the rest of a registered name is NOT the operator: the text is
+read as a comparison that starts with that identifier (`notes == "x"` is the field `notes`) -/
+theorem simpleL_not_registered (env : PEnv) (lower : Option Level) (x : Input)
+    (hg : gluedTo x = true) (hr : isRegistered env.scheme ('n' :: 'o' :: 't' :: x) = true) :
+    simpleL env lower ('n' :: 'o' :: 't' :: x) = comparisonL env lower ('n' :: 'o' :: 't' :: x) := by
+  refine simpleL_noUnary env lower (by simp [expect, stripPrefix])
+    ((lexUnary_eq_none_iff env _).mpr (.inr ⟨x, rfl, hg, hr⟩)) ?_
+  simp [lexQuantCall, lexEnum, quantOps, expect, stripPrefix]
 
 end WfModel
